@@ -1,7 +1,7 @@
 (* Executable instantiation of the skeleton with the binary64 carrier and generated kernels;
    used by the correspondence check: inputs and outputs are Z bit patterns.  -1 = panic. *)
 From Coq Require Import ZArith List Bool.
-Require Import PP.FloatModel PP.Expr PP.FloatOps PP.Model.PwModel.
+Require Import PP.FloatModel PP.Expr PP.FloatOps PP.Model.PwModel PP.Model.Wire.
 Import ListNotations.
 Local Open Scope Z_scope.
 
@@ -131,3 +131,7 @@ Definition run_polyn_eval (cs xs : list Z) : list Z :=
 Definition run_polyn_translate (cs : list Z) (v : Z) : list Z :=
   map to_bits (polyn_translate fadd (map of_bits cs) (of_bits v)).
 End R.
+
+(* serialisation: token stream of the serde data-model calls, then the borsh bytes *)
+Definition run_wire (s : shape) (v : val) : list Z :=
+  Z.of_nat (length (ser s v)) :: ser s v ++ Z.of_nat (length (enc s v)) :: enc s v.
